@@ -289,6 +289,7 @@ CLAIMED["C02"] = (
 ROUND7_ALL = (" Round-7 clause (all properties): in every analysed function a table that hands an earlier result to a later loop iteration or call is keyed by "
               "everything the result was computed from (Cxx.cache-keys; consistency checks that only compare a hit are left alone).")
 ROUND7 = {
+    "C04": " Round-7 clause: state is traced for the lowering only while no setup has been erased - the RoCC operand pairs are completed in a walker that runs before the reverse lowering walker (F-56, fixed); lowering patterns run before the walker that erases declarations.",
     "C06": " Round-7 clause: the loop-level pattern changes the state a loop yields only if the loop's state result is unused or the state is restored behind the loop (F-49, known finding).",
     "C07": " Round-7 clause: re-weaving a loop sets the yield operand of every state block argument, created or already there, to the end-of-body state (F-50, fixed).",
     "C08": " Round-7 clauses: the op verifier measures the stride pattern as written, the object the value generator indexes per hardware dimension; a kernel loop count is read through pattern methods and a product over a filtered subset of the bounds is rejected.",
